@@ -147,10 +147,14 @@ Failed(name) == [name |-> name, res |-> "err", pre |-> ref, faulted |-> FALSE, t
 
 \* ---------------------------------------------------------------- API calls
 \* NewFileWriter / ensureWriter (nm: the new file gets a swamp name after its header)
+\* A writer whose Close reported an error may be given up by its owner (the swamp is gone; a later summon
+\* makes a new writer): what it still buffered is lost with that reported error.
+GivenUp == w.open /\ ~w.wedged /\ call.name = "close" /\ call.res = "err"
 Open(nm) ==
-  /\ Quiescent /\ (~w.open \/ w.wedged)
+  /\ Quiescent /\ (~w.open \/ w.wedged \/ GivenUp)
   /\ cnt' = [cnt EXCEPT !.calls = @ + 1]
-  /\ UNCHANGED <<disk, ref, fm, dur, bmaps, crashobs>>
+  /\ ref' = IF GivenUp /\ Load(disk).ok THEN LoadMap(disk) ELSE ref
+  /\ UNCHANGED <<disk, fm, dur, bmaps, crashobs>>
   /\ IF ~disk.ex
        THEN /\ w' = [ClosedW EXCEPT !.open = TRUE] /\ Begin("open", CreateOps(nm))
      ELSE IF disk.hd = 0
@@ -266,7 +270,10 @@ FileStep ==
      /\ IF op = "pay" /\ w.pos = "mis"
           THEN disk' \in {disk, [disk EXCEPT !.clob = TRUE]}      \* the block lands inside existing bytes
           ELSE IF op = "bh" /\ w.pos = "mis"
-          THEN disk' \in {disk, [disk EXCEPT !.hd = 0]}           \* ... or over the file header itself
+          THEN \* ... or over the file header itself: magic destroyed (hd = 0) or only its other fields
+               disk' \in {disk, [disk EXCEPT !.hd = 0], [disk EXCEPT !.clob = TRUE]}
+          ELSE IF op \in {"hdr", "shdr", "chdr"} /\ disk.clob
+          THEN disk' \in {DiskAfter(op), [DiskAfter(op) EXCEPT !.clob = FALSE]}   \* a damaged header is rewritten
           ELSE disk' = DiskAfter(op)
      /\ w' = CASE op = "pay"   -> [w EXCEPT !.cur = <<>>, !.nb = @ + 1, !.ne = @ + Count(w.cur)]
                [] op = "trunc" -> [w EXCEPT !.dirty = FALSE]
